@@ -30,6 +30,8 @@ type Gen struct {
 	// them across the segments of one index, so they are fixed for the whole script)
 	vecOpt     map[string]string
 	vecBMetric string
+	// scripts for the frozen corpus query reopened segments only
+	reopenedOnly bool
 }
 
 func newGen(seed int64, tier string, w *bufio.Writer) *Gen {
@@ -1639,6 +1641,9 @@ func (g *Gen) wideSchemaCase(files bool) {
 		segs = append(segs, m)
 	}
 	x := hx([]byte("x"))
+	if g.reopenedOnly {
+		segs = segs[1:] // files of the frozen corpus: only what the current reader opens is queried
+	}
 	for _, seg := range segs {
 		g.emit("q fields %s", seg)
 		for _, fn := range []string{"_all", fmt.Sprintf("f%03d", nf-1), fmt.Sprintf("f%03d", nf-9), "f000", "f126", "f127"} {
@@ -1651,8 +1656,10 @@ func (g *Gen) wideSchemaCase(files bool) {
 		g.emit("q stored %s 0 stop=*", seg)
 		g.emit("q dv %s - fields=f000,f050,f100 doc=0", seg)
 	}
-	for _, seg := range segs[1:] {
-		g.emit("close %s", seg)
+	for _, seg := range segs {
+		if seg != s {
+			g.emit("close %s", seg)
+		}
 	}
 	g.st("wideschema")
 }
